@@ -719,7 +719,7 @@ theorem good_step (c : Cfg) (w : World) (ev : Event) (hpl : Plain ev = true) : G
   | pause a =>
     simp only [step]
     split
-    · exact Good.refl w
+    · exact Good.of_same rfl rfl
     · exact (good_prop_pause c _).1 w a
   | resume a => simp [Plain] at hpl
   | execute t ok =>
